@@ -1622,3 +1622,63 @@ def rstrip_set(ctx, repo, scope=("",), rule="RSTRIP-SET", _self=False):
 
 NEW12 = [elif_overlap, rstrip_set]
 GENERIC.extend(NEW12)
+
+
+# ---------------------------------------------------------------------------
+# FAMILY-ALL: a conjunction of `is None` tests over a family of sibling locals covers the whole family
+# ---------------------------------------------------------------------------
+_POSITIVE["FAMILY-ALL"] = '''
+def asFea(self):
+    xPlaDevice, yPlaDevice = self.xPlaDevice, self.yPlaDevice
+    xAdvDevice, yAdvDevice = self.xAdvDevice, self.yAdvDevice
+    if xPlaDevice is None and yPlaDevice is None and xAdvDevice is None:
+        return "<%s %s>" % (self.x, self.y)
+    return "<%s %s %s %s %s %s>" % (self.x, self.y, xPlaDevice, yPlaDevice, xAdvDevice, yAdvDevice)
+'''
+
+
+def _family(name):
+    import re
+
+    parts = re.findall(r"[A-Z][a-z0-9]+|[a-z0-9]+", name)
+    return parts[-1].lower() if len(parts) >= 2 and len(parts[-1]) >= 4 else None
+
+
+def family_all(ctx, repo, scope=("",), rule="FAMILY-ALL", _self=False):
+    ctx.rule(rule, "a conjunction of three or more `x is None` / `x is not None` tests that names at least two locals of one family (same last name component: xPlaDevice, yPlaDevice, xAdvDevice, yAdvDevice) names every local of that family the function has; a short form chosen because 'all devices are absent' must look at all of them", floor=1)
+    if not _self:
+        _selfcheck(ctx, rule, family_all)
+    for rel in sorted(repo.rels()):
+        if not _in_scope(rel, scope):
+            continue
+        m = repo.mod(rel)
+        total = 0
+        bad = []
+        for q, f in sorted(m.funcs.items()):
+            fn = f.node
+            if isinstance(fn, ast.Lambda):
+                continue
+            locals_ = None
+            for b in walk_no_nested(fn):
+                if not (isinstance(b, ast.BoolOp) and isinstance(b.op, ast.And) and len(b.values) >= 3):
+                    continue
+                names = [v.left.id for v in b.values if isinstance(v, ast.Compare) and len(v.ops) == 1 and isinstance(v.ops[0], (ast.Is, ast.IsNot)) and isinstance(v.left, ast.Name) and isinstance(v.comparators[0], ast.Constant) and v.comparators[0].value is None]
+                fams = {}
+                for nm in names:
+                    if _family(nm):
+                        fams.setdefault(_family(nm), set()).add(nm)
+                for k, have in sorted(fams.items()):
+                    if len(have) < 2:
+                        continue
+                    if locals_ is None:
+                        locals_ = {x.id for x in walk_no_nested(fn) if isinstance(x, ast.Name) and isinstance(x.ctx, ast.Store)} | {a.arg for a in fn.args.args}
+                    total += 1
+                    missing = {nm for nm in locals_ if _family(nm) == k} - have
+                    if missing:
+                        bad.append(f"{q}: the test over {sorted(have)} leaves out {sorted(missing)}")
+        if total:
+            ctx.ob(rule, f"{rel}:<module>", f"{total} None-conjunctions over a family of locals cover the family", not bad, "; ".join(bad[:3]))
+
+
+NEW13 = [family_all]
+GENERIC.extend(NEW13)
